@@ -190,7 +190,7 @@ CHECKS = {
 # dependency clauses (Check.include): rules of another property evaluated as part of this one, because a violation there breaks this property too
 DEPENDS = {
     'C02': 'C01 (D1 guards, D2 inline matchers)', 'C03': 'C02 (circuit-to-diagram translation, with C01 D1/D2)', 'C04': 'C01 (D3 effect schemas, D4 edge discipline)',
-    'C05': 'C01 (D1, D2) and C07', 'C06': 'C05 (with its dependencies) and C11', 'C07': 'C16', 'C08': 'C07 (with C16)', 'C12': 'C01 (D1, D2)', 'C13': 'C09',
+    'C05': 'C01 (D1, D2) and C07', 'C06': 'C05 (with its dependencies), C11 and C02 (the translation itself)', 'C07': 'C16', 'C08': 'C07 (with C16)', 'C12': 'C01 (D1, D2)', 'C13': 'C09',
 }
 for _k, _v in DEPENDS.items():
     CHECKS[_k]['text'] += ' Dependency clause: the rules of %s are evaluated as part of this check (violations are reported with a dep- key prefix).' % _v
